@@ -120,8 +120,21 @@ func init() {
 func runSearches(p *run.Part, ss []*seqx.Search) {
 	var rows []map[string]interface{}
 	for _, s := range ss {
+		if s.ExhaustPaths == 0 {
+			// path-by-path enumeration (no pruning on the state key) as deep as the budget of histories allows
+			budget := 12000.0
+			if p.Tier == "thorough" {
+				budget = 150000.0
+			}
+			n, d := 1.0, 0
+			for n*float64(len(s.Alphabet)) <= budget && d < s.Depth {
+				n *= float64(len(s.Alphabet))
+				d++
+			}
+			s.ExhaustPaths = d
+		}
 		s.Run()
-		rows = append(rows, map[string]interface{}{"config": s.Cfg.Name + s.PrefixID, "depth_completed": s.MaxDepth, "depth_bound": s.Depth, "states": s.States, "transitions": s.Transitions})
+		rows = append(rows, map[string]interface{}{"config": s.Cfg.Name + s.PrefixID, "depth_completed": s.MaxDepth, "depth_bound": s.Depth, "states": s.States, "transitions": s.Transitions, "path_exhaustive_depth": s.ExhaustPaths, "histories_extended_despite_known_state": s.PathsBeyondDedupe})
 		if len(s.Frontier) > 0 {
 			p.Sample(6, map[string]string{"config": s.Cfg.Name + s.PrefixID, "history": seqx.PathString(s.Frontier[len(s.Frontier)/2])})
 		}
